@@ -1,5 +1,7 @@
 """C20 — RIPscrip and IGS streams never crash (R-PANIC over root set GFX) + R-RIP-CURSOR (typestate of the RIP parameter
 cursor, on which the variable-length commands' `pop().unwrap()` and the `command.as_mut().unwrap()` rely).
+R-IMAGE-RECT: every bgi `Image` is built from a vector filled by one unconditional push inside two nested range loops whose
+trip counts are the stored width and height (the invariant `data.len() == width * height` that put_image's indexing relies on).
 The stall clause (loop counts / sleeps driven by parameters) and the canvas-completeness clause are not decided here."""
 from analysis import facts as F
 from analysis import roots as R
@@ -93,10 +95,133 @@ def rip_cursor(chk, f):
     chk.floor("R-RIP-CURSOR", "stores to parameter_state", nps, 2)
 
 
+# ===================================================================================================== R-IMAGE-RECT
+def image_rect(chk, f):
+    """Every `Image { width, height, data }` built in the RIP emulation holds width x height bytes: the vector handed to `data`
+    is filled by exactly one unconditional push inside two nested range loops whose trip counts (end - start, as affine
+    forms over the function's variables) are the expressions stored as width and height."""
+    from analysis.expr import ExprBuilder, show
+    from rules.C11 import affine
+    adts = [k for k in f.adts if k.endswith("rip::bgi::Image")]
+    if not chk.anchor(len(adts) == 1, "R-IMAGE-RECT", "anchor missing: the bgi Image type"):
+        return
+    IMG = adts[0]
+    fields = [nm for nm, _ in f.adts[IMG]["variants"][0]["fields"]]
+    n = 0
+    for bid, b in sorted(f.bodies.items()):
+        if b.kind not in ("fn", "method", "closure"):
+            continue
+        aggs = [(bi, k, s) for bi, k, s in b.stmts() if s["k"] == "assign" and s["rv"]["k"] == "agg" and s["rv"].get("adt") == IMG]
+        if not aggs:
+            continue
+        eb = ExprBuilder(b)
+        for bi, k, s in aggs:
+            n += 1
+            ops = dict(zip(fields, s["rv"]["ops"]))
+            why = None
+            try:
+                w, h = affine(eb.operand(ops["width"])), affine(eb.operand(ops["height"]))
+                dpj = ops["data"].get("move") or ops["data"].get("copy")
+                vec = dpj["l"] if dpj is not None and not dpj.get("p") else None
+                # follow plain moves back to the vector the loops push into
+                seen = set()
+                while vec is not None and vec not in seen:
+                    seen.add(vec)
+                    ds = b.defs.get(vec, [])
+                    if len(ds) == 1 and ds[0][1] != "term":
+                        rv = b.blocks[ds[0][0]]["stmts"][ds[0][1]]["rv"]
+                        if rv["k"] == "use" and ("move" in rv["a"] or "copy" in rv["a"]) and not (rv["a"].get("move") or rv["a"].get("copy")).get("p"):
+                            vec = (rv["a"].get("move") or rv["a"].get("copy"))["l"]
+                            continue
+                    break
+                if w is None or h is None or vec is None:
+                    why = "width / height are not affine expressions, or the data operand is not a local vector"
+                else:
+                    pushes = []
+                    for pb, t in b.calls():
+                        p = t["callee"].get("resolved") or t["callee"].get("path") or ""
+                        if p.startswith("std::vec::Vec::<T") and t["args"]:
+                            a0 = t["args"][0].get("move") or t["args"][0].get("copy")
+                            x = a0
+                            # &mut vec through one reborrow temporary
+                            tgt = None
+                            if a0 is not None:
+                                ds = b.defs.get(a0["l"], [])
+                                if len(ds) == 1 and ds[0][1] != "term":
+                                    rv = b.blocks[ds[0][0]]["stmts"][ds[0][1]]["rv"]
+                                    if rv["k"] == "ref" and not rv["p"].get("p"):
+                                        tgt = rv["p"]["l"]
+                            if tgt == vec:
+                                pushes.append((pb, t, p.split("::")[-1]))
+                    other = [x for x in pushes if x[2] not in ("push", "new", "with_capacity", "len", "is_empty", "capacity", "reserve")]
+                    ps = [x for x in pushes if x[2] == "push"]
+                    if other or len(ps) != 1:
+                        why = "the data vector is filled by %s, not by a single push" % ([x[2] for x in pushes] or "nothing visible")
+                    else:
+                        pb = ps[0][0]
+                        # the loops around the push: range iterators whose next() discriminant controls it
+                        trips = []
+                        deps = b.control_deps(pb)
+                        bad_dep = False
+                        for d in sorted(deps):
+                            tt = b.blocks[d]["term"]
+                            if tt["k"] != "switch":
+                                continue
+                            e = eb.operand(tt["discr"])
+                            txt = show(e)
+                            if not txt.startswith("discr(next("):
+                                bad_dep = True
+                                continue
+                        heads = [hd for hd in b.loop_heads() if pb in b.natural_loop(hd)]
+                        for hd in heads:
+                            # the Range this loop iterates: the aggregate / RangeInclusive::new feeding its into_iter
+                            cands_ = []
+                            for cb, ct in b.calls():
+                                cp = ct["callee"].get("resolved") or ct["callee"].get("path") or ""
+                                if cp.endswith("IntoIterator>::into_iter") or cp == "<I as std::iter::IntoIterator>::into_iter":
+                                    if ct.get("target") is not None and b.dominates(cb, hd) and hd in b.reachable_from(ct["target"]):
+                                        ee = eb.operand(ct["args"][0])
+                                        if ee[0] == "agg" and "Range" in str(ee[1]) and "Inclusive" not in str(ee[1]):
+                                            cands_.append((ee, cb))
+                            # the iterator of this loop is the into_iter closest to the head: dominated by all the others
+                            rng = None
+                            for (ee, cb) in cands_:
+                                if all(b.dominates(ob, cb) for (_, ob) in cands_):
+                                    rng = (ee, cb)
+                            trips.append((hd, rng))
+                        if bad_dep:
+                            why = "the push is conditional (control dependent on more than the two loop iterators)"
+                        elif len(heads) != 2 or any(r is None for _, r in trips):
+                            why = "the push is not inside exactly two range loops (%d loops found)" % len(heads)
+                        else:
+                            forms = []
+                            for hd, (ee, cb) in trips:
+                                st_, en_ = affine(ee[2][0]) if isinstance(ee[2], (list, tuple)) else None, affine(ee[2][1]) if isinstance(ee[2], (list, tuple)) else None
+                                if st_ is None or en_ is None:
+                                    forms.append(None)
+                                    continue
+                                d = dict(en_[0])
+                                for x_, v_ in st_[0].items():
+                                    d[x_] = d.get(x_, 0) - v_
+                                forms.append(({x_: v_ for x_, v_ in d.items() if v_}, en_[1] - st_[1]))
+                            key = lambda a_: (sorted((str(k_), v_) for k_, v_ in a_[0].items()), a_[1])
+                            if any(x is None for x in forms) or sorted(map(key, forms)) != sorted(map(key, [w, h])):
+                                why = "the trip counts of the two loops (%s) are not the stored width and height (%s, %s)" % (forms, w, h)
+            except Exception as ex:      # fail closed
+                why = "the construction could not be analysed (%s)" % ex
+            chk.obligation(why is None)
+            if why is not None:
+                chk.finding("%s|image-rect" % b.short(), rule="R-IMAGE-RECT", where="%s:%s" % (b.file, s.get("line")), fn=b.short(),
+                            what="an Image is built whose data is not shown to hold width x height bytes: %s; put_image walks width x height entries" % why)
+    chk.floor("R-IMAGE-RECT", "Image constructions", n, 1)
+
+
 def run(chk):
     f = F.load()
     roots = R.gfx_roots(f)
     reviewed = P.run_scope(chk, "GFX", roots, floor_roots=4, floor_bodies=400, floor_sinks=300, reviewed_file="reviewed_safe.json")
     chk.rules.append("R-RIP-CURSOR")
     rip_cursor(chk, f)
-    return P.finish(chk, reviewed, "No undischarged panic origin is reachable from the RIPscrip / IGS entry points; the RIP parameter cursor is reset whenever a command starts.")
+    chk.rules.append("R-IMAGE-RECT")
+    image_rect(chk, f)
+    return P.finish(chk, reviewed, "No undischarged panic origin is reachable from the RIPscrip / IGS entry points; the RIP parameter cursor is reset whenever a command starts; a saved image holds width x height bytes.")
